@@ -156,7 +156,7 @@ pub fn optic_image(d: &Diagram, o: &OpticTable) -> (Diagram, Diagram) {
         out.nodes.extend_from_slice(o.rev.object(l));
     }
     let mut pairs = vec![];
-    let mut append = |out: &mut Diagram, img: &Diagram| -> usize {
+    let append = |out: &mut Diagram, img: &Diagram| -> usize {
         let base = out.nodes.len();
         out.nodes.extend_from_slice(&img.nodes);
         for ie in &img.edges {
